@@ -23,7 +23,8 @@ func (C07) Rule() string {
 	return "each run = one seeded sequence of repo-level requests (new repo, commit, new version, branch, tag, merge, resolve, note/log, instance create/rename/delete, repo delete; via HTTP and the RPC command switch) " +
 		"whose arguments are drawn from every kind in the property's quantifier (fresh / caller-assigned / duplicate / empty / malformed UUIDs and branch names; committed / open / unknown / repeated / foreign-repo parents), with clean/kill restarts; " +
 		"after EVERY request GET /api/repos/info is parsed and the graph invariants are evaluated (single root, acyclic, parent/child mirror, unique uuids and version ids, children only under committed parents, one chain and one head per created branch, " +
-		"branch-versions and uuid:branch addressing agree with the graph), and a request answered with an error must leave the normalised graph unchanged; after a restart the reloaded graph must equal the one before. " +
+		"branch-versions and uuid:branch addressing agree with the graph), and a request answered with an error must leave the normalised graph unchanged; after a restart the reloaded graph must equal the one before, and every <root>:<branch> (master included) must resolve as before (reported as C03). " +
+		"Every fourth run is a store-error run: a quarter of its graph-changing requests meet one failing store write (injected disk error at the n-th Put of the request); a request that is then answered with an error must leave the graph unchanged like any other refused request. " +
 		"non-trivial = at least one rejected request and one merge or branch; distinct = distinct (steps, schedule, faults) hash"
 }
 func (C07) Assumptions() []string { return commonAssumptions }
